@@ -16,6 +16,12 @@
 (*       every operation other than resolve() on a relative instance raises *)
 (*       RelativePaddingDimensionError.                                     *)
 (*                                                                         *)
+(* The FILL is any string occupying exactly one column (one code point, an  *)
+(* SGR-wrapped glyph, base + combining character) or empty; the arithmetic  *)
+(* below does not depend on it (to_exact keeps it).  What one fill CELL is, *)
+(* is defined on the fill's own token stream in Trace_Pad (FillT, FillCell, *)
+(* FillOK): left / right / width count fill CELLS, never code points.       *)
+(*                                                                         *)
 (* No variables, no constants: MC_Padding enumerates it, Trace_Pad          *)
 (* instantiates it to know WHERE a padded render has to land.               *)
 (* Sizes are records [w, h]; dimensions records [l, t, r, b].               *)
